@@ -320,7 +320,10 @@ def arcovar(x, order):
     # Here we use lstsq rathre than solve function because Xc is not square
     # matrix
 
-    a, _residues, _rank, _singular_values = scipy.linalg.lstsq(-Xc, X1)
+    # singular values below max(M, N) * eps (relative) are rounding noise of linearly
+    # dependent regressors; scipy's default keeps everything above eps
+    rcond = max(Xc.shape) * np.finfo(Xc.dtype).eps
+    a, _residues, _rank, _singular_values = scipy.linalg.lstsq(-Xc, X1, cond=rcond)
 
     # Estimate the input white noise variance
     Cz = np.dot(X1.conj().transpose(), Xc)
